@@ -128,7 +128,15 @@ var probeSites = map[string]bool{
 	"conv/j2t.(*BinaryConv).handleValueMapping":               true,
 	"conv/j2t.(*BinaryConv).handleHttpMappings":               true,
 	"conv/j2t.(BinaryConv).handleError":                       true,
-	"internal/rt.GuardSlice":                                  true,
+	"internal/json.NoQuote":                                   true,
+	"internal/json.Quote":                                     true,
+	"internal/json.EncodeString":                              true,
+	"thrift.(*RequiresBitmap).malloc":                         true,
+	"thrift.(RequiresBitmap).CopyTo":                          true,
+	"thrift/generic.guardPathNodeSlice":                       true,
+	"thrift/generic.resetPathNodeSlots":                       true,
+	"thrift/generic.(*Node).setNotFound":                      true,
+	"thrift/generic.(*Node).replaceMany":                      true,
 }
 
 // ---- small tape helpers used by all generators
